@@ -423,12 +423,33 @@ def consolidatableAfter (pool : Pool) (c : Claim) (now : Int) : Cond :=
   else if underConsolidateAfter pool c now then .absent
   else .true_
 
-/-- `Controller.Reconcile` of `nodeclaim.disruption` as far as Consolidatable goes: nothing happens for a deleting
-    NodeClaim, one without nodepool label, or whose NodePool cannot be read; static pools skip the sub-reconciler -/
-def reconcileClaim (pool : Pool) (c : Claim) (now : Int) : Claim :=
+/-- what may go wrong during one run of `Controller.Reconcile` of `nodeclaim.disruption` (vocabulary, shared with the
+    specification).  Each field is one fault position of the Go function. -/
+structure RFaults where
+  /-- the Drift sub-reconciler fails: the cloud provider's `IsDrifted` (or `GetInstanceTypes`, for a NodeClaim older
+      than an hour) returns an error — reported to the caller or swallowed (`IgnoreNodeClaimNotFoundError`) -/
+  drift   : Bool := false
+  /-- `kubeClient.Get` of the NodePool fails (any error other than NotFound; NotFound is `pool.present = false`) -/
+  poolGet : Bool := false
+  /-- the API server refuses the status patch (conflict, not found, server error): nothing is persisted -/
+  patch   : Bool := false
+deriving Repr, DecidableEq
+
+/-- `Controller.Reconcile` of `nodeclaim.disruption` as far as the PERSISTED Consolidatable condition goes: nothing
+    happens for a deleting NodeClaim, one without nodepool label, or whose NodePool cannot be read (missing, or the
+    read fails); static pools skip the Consolidation sub-reconciler; a refused status patch persists nothing.
+    `runReconcilers` runs EVERY sub-reconciler and collects the errors (`multierr.Append`; the loop has no early
+    exit — `CandidateFacts.subReconcilerLoopExits`), and `Reconcile` patches before it returns them
+    (`CandidateFacts.reconcileReturnsBeforePatch`): a failing drift check (`f.drift`) changes nothing here. -/
+def reconcileClaimF (f : RFaults) (pool : Pool) (c : Claim) (now : Int) : Claim :=
   if c.deleting then c
   else if c.md.pool != .this || !pool.present then c
+  else if f.poolGet then c
   else if pool.static then c
+  else if f.patch then c
   else { c with consolidatable := consolidatableAfter pool c now }
+
+/-- the fault-free run -/
+def reconcileClaim (pool : Pool) (c : Claim) (now : Int) : Claim := reconcileClaimF {} pool c now
 
 end Karp.Candidate
